@@ -338,5 +338,5 @@ def tasks(ctx):
     t = []
     for sh in range(NSHARDS):
         t.append((task_fixed, dict(shard=sh)))
-        t.append((task_random, dict(shard=sh, n=ctx.pick(400, 8000))))
+        t.append((task_random, dict(shard=sh, n=ctx.pick(1200, 8000))))
     return t
